@@ -555,8 +555,15 @@ fn check_dwarf_level(c: &ListCase, b: &BuiltLists, cx: &mut Ctx) -> R {
     let v5 = cfg.version >= 5;
     // root: low_pc (addr), addr_base, rnglists_base, loclists_base; children: one per list + low/high pc combos
     let mut abbrevs: Vec<Abbrev> = Vec::new();
-    let mut root_attrs: Vec<(u16, u16, i64)> = vec![(0x11, F_ADDR, 0)];
-    let mut root_vals: Vec<AV> = vec![AV::U(c.base & m)];
+    // the unit base: DW_AT_low_pc as an address, or (when the case has an address table) as an index into it, placed
+    // BEFORE the DW_AT_addr_base attribute it depends on (attribute order must not matter)
+    let indexed_low_pc = !c.addrs.is_empty() && c.pad % 2 == 1;
+    let unit_base = if indexed_low_pc { c.addrs[0] & m } else { c.base & m };
+    let mut root_attrs: Vec<(u16, u16, i64)> = vec![(0x11, if indexed_low_pc { if v5 { F_ADDRX } else { F_GNU_ADDR_INDEX } } else { F_ADDR }, 0)];
+    let mut root_vals: Vec<AV> = vec![AV::U(if indexed_low_pc { 0 } else { c.base & m })];
+    if indexed_low_pc {
+        cx.label("unit low_pc through the address table, before DW_AT_addr_base");
+    }
     {
         // DW_AT_addr_base, or the GNU extension attribute before version 5 (data4/8 carry section offsets in v2/3)
         let f = if cfg.version <= 3 { if cfg.format64 { F_DATA8 } else { F_DATA4 } } else { F_SEC_OFFSET };
@@ -645,7 +652,7 @@ fn check_dwarf_level(c: &ListCase, b: &BuiltLists, cx: &mut Ctx) -> R {
     }
     let header = dwarf.units().next().map_err(|e| Failure { sig: "c08/dwarf/units".into(), detail: format!("{e:?}") })?.ok_or_else(|| Failure { sig: "c08/dwarf/no-unit".into(), detail: String::new() })?;
     let mut unit_r = dwarf.unit(header).map_err(|e| Failure { sig: "c08/dwarf/unit".into(), detail: format!("{e:?}") })?;
-    ensure_eq!(unit_r.low_pc, c.base & m, "c08/dwarf/unit-low_pc");
+    ensure_eq!(unit_r.low_pc, unit_base, "c08/dwarf/unit-low_pc");
     ensure_eq!(unit_r.addr_base.0, c.addr_base, "c08/dwarf/unit-addr_base");
     if v5 {
         ensure_eq!(unit_r.rnglists_base.0, b.rng_base, "c08/dwarf/unit-rnglists_base");
@@ -671,7 +678,7 @@ fn check_dwarf_level(c: &ListCase, b: &BuiltLists, cx: &mut Ctx) -> R {
     };
     // unit_ranges = list 0
     {
-        let want = resolve(&c.rng[0], c.base & m, a, addrs);
+        let want = resolve(&c.rng[0], unit_base, a, addrs);
         let mut it = dwarf.unit_ranges(&unit_r).map_err(|e| Failure { sig: "c08/dwarf/unit_ranges".into(), detail: format!("{e:?}") })?;
         let (got, err) = collect_ranges(&mut it);
         let (wl, werr) = match &want {
@@ -687,7 +694,7 @@ fn check_dwarf_level(c: &ListCase, b: &BuiltLists, cx: &mut Ctx) -> R {
     let mut k = 0usize;
     while let Some(entry) = cur.next_dfs().map_err(|e| Failure { sig: "c08/dwarf/dfs".into(), detail: format!("{e:?}") })? {
         if k < first_loc_child {
-            let want = resolve(&c.rng[k], c.base & m, a, addrs);
+            let want = resolve(&c.rng[k], unit_base, a, addrs);
             let attr = entry.attr_value(gimli::DW_AT_ranges).ok_or_else(|| Failure { sig: "c08/dwarf/attr".into(), detail: String::new() })?;
             let off = dwarf.attr_ranges_offset(&unit_r, attr.clone()).map_err(|e| Failure { sig: "c08/dwarf/attr_ranges_offset".into(), detail: format!("{e:?} for {:?}", attr) })?;
             ensure_eq!(off.map(|o| o.0), Some(b.rng_offsets[k]), "c08/dwarf/attr_ranges_offset-value", "child {} attr {}", k, canon_av(&attr));
@@ -702,7 +709,7 @@ fn check_dwarf_level(c: &ListCase, b: &BuiltLists, cx: &mut Ctx) -> R {
             cx.label("die_ranges:list");
         } else if k < first_pc_child {
             let li = k - first_loc_child;
-            let want = resolve(&c.loc[li], c.base & m, a, addrs);
+            let want = resolve(&c.loc[li], unit_base, a, addrs);
             let attr = entry.attr_value(gimli::DW_AT_location).ok_or_else(|| Failure { sig: "c08/dwarf/attr".into(), detail: String::new() })?;
             let mut it = match dwarf.attr_locations(&unit_r, attr.clone()) {
                 Ok(Some(it)) => it,
